@@ -74,6 +74,7 @@ Definition steps_scope (steps : list stepS) (k : nat) : sty :=
 (* needs                                                                  *)
 
 Record jobS := { j_id : string;                    (* lower-cased key of the jobs map *)
+                 j_rawid : string;                 (* Job.ID.Value: the id as written *)
                  j_needs : list string;            (* `needs:` entries as written *)
                  j_outputs : list string;          (* lower-cased output names *)
                  j_call : option sty }.            (* reusable workflow call: outputs type from the callee (C14) *)
@@ -92,7 +93,7 @@ Definition find_job (jobs : list jobS) (id : string) : option jobS :=
 (* populateDependantNeedsTypes: direct dependencies only *)
 Definition add_need (jobs : list jobS) (root : jobS) (props : list (string * sty)) (id : string) :=
   let i := lower id in
-  if String.eqb i (j_id root) then props
+  if String.eqb i (j_rawid root) then props   (* `i == root.ID.Value`: compared with the id as written *)
   else match lookup i props with
        | Some _ => props
        | None => match find_job jobs i with
